@@ -236,17 +236,18 @@ fam('c19_zst', 'g_fmt', [(1, w) for w in range(12)], [(2, w) for w in range(12)]
 fam('c19_set_iters', 'g_fmt', [(1, 1, w) for w in range(3)], [(1, 1, 3)] + [(n, m, w) for (n, m) in ((2, 1), (2, 2)) for w in range(4)], lto=True, unwind=lambda c: 8)   # w=3 (symmetric_difference): 6 min -> thorough
 
 fam('c20_tokens', 'g_serde', [(0, 0), (1, 1), (2, 2), (2, 3), (3, 3)], [], unwind=lambda c: 8)
+fam('c20_zst', 'g_serde', [(1, 0), (1, 1), (2, 0), (2, 1)], [], unwind=lambda c: 12, no_dbg=True)   # zero-sized entries
 fam('c20_value_de', 'g_serde', [(1, 1), (2, 2), (2, 3), (3, 3)], [], unwind=lambda c: 8)
 # no_dbg: at opt-1 bincode's non-generic functions are not inlined into the harness crate's IR (body-less externals)
 fam('c20_bincode_map c20_bincode_set', 'g_serde', [(0, 0), (1, 1), (2, 2), (3, 3), (2, 3), (1, 3)], [(4, 4), (3, 5)], unwind=lambda c: 12, no_dbg=True)
 
 # --------------------------------------------------------------------------------------- properties
 PROPS = {
-    'C20': dict(fams='c20_bincode_map c20_bincode_set c20_value_de c20_tokens'),
+    'C20': dict(fams='c20_bincode_map c20_bincode_set c20_value_de c20_tokens c20_zst'),
     'C19': dict(fams='c19_map c19_set c19_nested c19_map_iters c19_set_iters c19_zst c19_long'),
     'C02': dict(fams='c01_insert c01_insert_kv c01_checked_insert c01_lookup c01_remove c01_remove_entry c01_retain c01_clear c01_drain_all '
                      'c10_into_iter c10_into_keys c10_into_values c10_set_into_iter c10_drain c10_set_drain c10_provided c10_set_provided c10_drain_methods c10_set_drain_methods '
-                     'c07_insert c07_replace c07_remove c07_take c07_retain c07_clear c07_drain c07_extend c11_or c11_variants c11_key_and_modify c16_from_iter c15_clone c15_set_clone c15_clone_from '
+                     'c07_insert c07_replace c07_remove c07_take c07_retain c07_clear c07_drain c07_extend c11_or c11_variants c11_key_and_modify c16_from_iter c16_from_array c16_set_from_array c15_clone c15_set_clone c15_clone_from '
                      'c03_insert c03_insert_kv c03_or_insert c03_vacant_insert c03_set_insert c03_checked_full c03_from_iter c03_set_extend '
                      'c04_internal c04_set_internal'),   # rejected arguments destroyed exactly once
     'C12': dict(fams='c01_insert c01_insert_kv c01_checked_insert c01_lookup c01_remove_entry c03_replace_full c07_insert c07_replace c07_lookup c07_take '
